@@ -4,7 +4,7 @@
     declarative Dangling predicate, outcome machine) is model-checked; every named deviation is shown to bite.
 (G) TLC enumerates (small function sets) and simulates (the full 120-function table, documented and odd argument
     shapes, misplaced calls; focused walks with a fixed spine around one kind of reference each: mappings, tags, views,
-    error responses, gRPC messages, security scopes, recursive user types under gRPC / HTTP transports) programs and
+    error responses, gRPC messages, security scopes, recursive user types under gRPC / HTTP transports, parent / child services) programs and
     prints each with what the specification says about it; a seed corpus (vlib/c12_seeds.py) is read the same way; dslhost executes
     every program literally on the real dsl/eval/expr packages, one program per child process with a wall-clock
     limit; the observed outcome must be one the specification allows.
@@ -43,6 +43,7 @@ DEVS = {
     "crash.grpc_response_message_empty_dsl": (["API", "GRPC", "Response", "Message"], 4, 0, "tiny"),
     "crash.enum_default_uncomparable": (["Type", "Attribute", "Enum", "Default"], 4, 0, "tiny", "simulate"),
     "crash.extend_cycle_through_attribute": (["Type", "Attribute", "Extend"], 3, 0, "tiny"),
+    "crash.parent_cycle": (["Service", "HTTP", "Parent"], 3, 0, "tiny"),
     "accept.scope": (["Service", "Method", "Security", "Scope"], 4, 0, "tiny"),
     "accept.body_attribute": (["Service", "Method", "HTTP", "Body", "Attribute"], 5, 0, "min", "simulate"),
     "accept.response_tag": (["Service", "Method", "HTTP", "Response", "Tag"], 5, 0, "min", "simulate"),
@@ -104,8 +105,9 @@ def generate(ctx, quick):
              ("gen/Gen_DSLProgram_refs.cfg", nsim[2], "Gen simulate reference-rich")]
     # focused walks: a fixed spine (one service, method, transport block, payload/result) and a handful of functions around one kind of reference
     # (sec: security requirements with several scopes; rec / rech: user types that reach themselves through attributes, arrays, maps and
-    # Extend, used by a method with a gRPC / an HTTP transport)
-    for name in ("map", "err", "body", "tag", "grpc", "view", "sec", "rec", "rech"):
+    # Extend, used by a method with a gRPC / an HTTP transport; par: up to three services naming each other as Parent, canonical methods
+    # with and without routes, relative / parameterised / absolute paths)
+    for name in ("map", "err", "body", "tag", "grpc", "view", "sec", "rec", "rech", "par"):
         runs.append(("gen/Gen_DSLProgram_%s.cfg" % name, 100 if quick else 1000, "Gen simulate focused " + name))
 
     def one(r):
@@ -274,6 +276,13 @@ def handoff(ctx, host, lines, quick):
     todo = []
     for i, o in enumerate(out):
         r = o["res"]
+        if r["outcome"] in ("panic", "timeout") and r.get("stage") in ("fatal", "?"):
+            # the child process died (stack overflow) or hung after evaluation had accepted the program (it did when it ran without -gen):
+            # the generators crashed on an accepted design
+            later[id(pick[i])] = "error"
+            res["failures"].append({"key": "C01/gen-%s/%s" % ("crash" if r["outcome"] == "panic" else "timeout", cp.structure_key(progs[i]["nodes"])[:200]),
+                                    "program": cp.render(progs[i]["nodes"]).splitlines(), "diagnostic": (r.get("panic") or "")[:600]})
+            continue
         if r["outcome"] != "accepted":
             raise core.Infra("program accepted before is %s when run again: %s" % (r["outcome"], json.dumps(progs[i])[:300]))
         if r.get("gen") == "ok":
